@@ -34,20 +34,30 @@ Item = tuple  # ('a', text) | ('s', quote, body) | ('g', brackets, [items])
 # fragment grammar (the python twin of `Frag` in lean/Tranp/Model/Block.lean)
 
 
-def gen_items(rng: random.Random, depth: int, mode: str, width: int, delim_w: float = 0.3, exclude: str = '') -> list[Item]:
-	"""mode: 'clean' (string bodies free of brackets/quotes) | 'dirty' (brackets and the other quote inside strings)"""
+def gen_items(rng: random.Random, depth: int, mode: str, width: int, delim_w: float = 0.3, exclude: str = '', parent: str | None = None) -> list[Item]:
+	"""mode: 'clean' (string bodies free of brackets/quotes) | 'dirty' (brackets and the other quote inside strings).
+	`depth` is the nesting still allowed below this level; with depth > 0 a group is forced most of the time so that the
+	deep levels are really reached; a nested group repeats its parent's bracket kind often (same-kind nesting `f(g(1), 2)`)."""
 	items: list[Item] = []
-	for _ in range(rng.randint(0, width)):
+	n = rng.randint(0, width)
+	forced = rng.randrange(n + 1) if depth > 0 and rng.random() < 0.9 else -1
+	if forced >= 0:
+		n = max(n, 1)
+	str_w = 0.22 if mode == 'dirty' else 0.12
+	for i in range(n):
 		r = rng.random()
-		if r < 0.32:
+		if i == forced or (depth > 0 and r > 0.86):
+			b = parent if parent is not None and rng.random() < 0.4 else rng.choice(BRACKETS)
+			items.append(('g', b, gen_items(rng, depth - 1, mode, max(1, width - 1), delim_w, exclude, b)))
+		elif r < 0.30:
 			items.append(('a', ''.join(rng.choice(IDENT) for _ in range(rng.randint(1, 4)))))
-		elif r < 0.32 + delim_w:
+		elif r < 0.30 + delim_w:
 			d = rng.choice(DELIMS)
 			items.append(('a', d + (' ' if d != ' ' and rng.random() < 0.5 else '')))
-		elif r < 0.74:
+		elif r < 0.30 + delim_w + str_w:
 			items.append(gen_string(rng, mode, exclude))
-		elif r < 0.96 and depth > 0:
-			items.append(('g', rng.choice(BRACKETS), gen_items(rng, depth - 1, mode, max(1, width - 1), delim_w, exclude)))
+		elif r < 0.97:
+			items.append(('a', rng.choice(IDENT)))
 		else:
 			items.append(('a', rng.choice(['.', '-', '*', '&', '+', '::', '\n', '\t', 'é'])))
 	return items
@@ -56,8 +66,8 @@ def gen_items(rng: random.Random, depth: int, mode: str, width: int, delim_w: fl
 def gen_string(rng: random.Random, mode: str, exclude: str = '') -> Item:
 	q = rng.choice(QUOTES)
 	alpha = 'ab1 ,:=.'
-	if mode == 'dirty' and rng.random() < 0.7:
-		alpha += '()[]{}<>' + ('"' if q == "'" else "'")
+	if mode == 'dirty' and rng.random() < 0.8:
+		alpha = 'a ,=' + '()[]{}<>' + ('"' if q == "'" else "'") * 2
 		alpha = ''.join(c for c in alpha if c not in exclude)
 	return ('s', q, ''.join(rng.choice(alpha) for _ in range(rng.randint(0, 5))))
 
@@ -98,7 +108,27 @@ def strings_have(items: list[Item], chars: str) -> bool:
 
 def gen_fragment(rng: random.Random, mode: str, i: int, exclude: str = '') -> list[Item]:
 	depth = i % 6  # 0..5
-	return gen_items(rng, depth, mode, 2 + i % 5, 0.3, exclude)
+	items = gen_items(rng, depth, mode, 2 + i % 5, 0.3, exclude)
+	# boundary positions: delimiter in the very last / very first position, doubled delimiter
+	r = rng.random()
+	if r < 0.12:
+		items.append(('a', rng.choice(DELIMS)))
+	elif r < 0.20:
+		items.insert(0, ('a', rng.choice(DELIMS)))
+	elif r < 0.26 and items:
+		d = rng.choice(DELIMS)
+		items.insert(rng.randrange(len(items) + 1), ('a', d + d))
+	if mode == 'dirty' and not is_dirty(items):
+		q = rng.choice(QUOTES)
+		body = ''.join(c for c in rng.choice(['(', ')', '[', '{x', '<', '>', "'" if q == '"' else '"', '(,', ')]', '((']) if c not in exclude)
+		where = items
+		while rng.random() < 0.5:
+			groups = [it for it in where if it[0] == 'g']
+			if not groups:
+				break
+			where = rng.choice(groups)[2]
+		where.insert(rng.randrange(len(where) + 1), ('s', q, body))
+	return items
 
 
 def gen_malformed(rng: random.Random, i: int) -> str:
@@ -319,7 +349,7 @@ def deco_text(rng: random.Random, mode: str, i: int) -> tuple[str, str, list[tup
 	args: list[tuple[str | None, str]] = []
 	labels: set[str] = set()
 	for _ in range(rng.randint(0, 4)):
-		items = [it for it in gen_items(rng, i % 4, mode, 1 + i % 3, 0.2) if not (it[0] == 'a' and ',' in it[1])]
+		items = [it for it in gen_items(rng, i % 4, mode, 1 + i % 3, 0.25) if not (it[0] == 'a' and (',' in it[1] or '=' in it[1]))]
 		value = render(items).strip(' ')
 		label = None
 		if rng.random() < 0.35:
@@ -418,7 +448,7 @@ def search_sep(ctx: Ctx) -> SearchResult:
 	res = SearchResult('break_separator laws on the real helper: exact top-level split on clean fragments; cuts only at top-level delimiters / rejoin up to blanks / balanced pieces on all fragments (independent scanner)')
 	hist: dict[str, int] = {}
 	seen: set[str] = set()
-	n = ctx.scale(2500, 40000)
+	n = ctx.scale(20000, 150000)
 	for i in range(n):
 		mode = 'clean' if i % 3 else 'dirty'
 		items = gen_fragment(rng, mode, i)
@@ -458,9 +488,9 @@ def search_last(ctx: Ctx) -> SearchResult:
 	res = SearchResult('break_last_block(prefix + group) = (prefix, inside) on the real helper; no group of the kind → IndexError')
 	hist: dict[str, int] = {}
 	seen: set[str] = set()
-	for i in range(ctx.scale(2500, 40000)):
+	for i in range(ctx.scale(25000, 200000)):
 		b = BRACKETS[i % 4]
-		mode = 'clean' if i % 2 else 'dirty'
+		mode = 'clean' if (i // 4) % 2 else 'dirty'
 		# strings may contain brackets of the other kinds and any quotes, not the kind that is extracted
 		pre = gen_fragment(rng, mode, i, exclude=b)
 		inner = gen_fragment(rng, mode, i + 2, exclude=b)
@@ -545,8 +575,8 @@ def search_decorator(ctx: Ctx) -> SearchResult:
 		res.cases += 1
 		bad = check_decorator(text, path, args)
 		if bad:
-			res.findings.append(Finding(key=bad[0], what=bad[1], replay={'decorator': text}))
-	for i in range(ctx.scale(2500, 40000)):
+			res.findings.append(Finding(key=bad[0], what=bad[1], replay={'decorator': text, 'witness': True}))
+	for i in range(ctx.scale(25000, 200000)):
 		mode = 'clean' if i % 3 else 'dirty'
 		text, path, args = deco_text(rng, mode, i)
 		res.cases += 1
@@ -588,8 +618,8 @@ def search_param(ctx: Ctx) -> SearchResult:
 	res.cases += 1
 	bad = check_param('bool b = x == y', 'bool', 'b', 'x == y')
 	if bad:
-		res.findings.append(Finding(key=bad[0], what=bad[1], replay={'parameter': 'bool b = x == y'}))
-	for i in range(ctx.scale(2500, 40000)):
+		res.findings.append(Finding(key=bad[0], what=bad[1], replay={'parameter': 'bool b = x == y', 'witness': True}))
+	for i in range(ctx.scale(25000, 200000)):
 		text, var_type, symbol, default = param_text(rng, i)
 		res.cases += 1
 		seen.add(text)
@@ -605,32 +635,114 @@ def search_param(ctx: Ctx) -> SearchResult:
 	return res
 
 
-def search_bracket(ctx: Ctx) -> SearchResult:
+def nested_group_followed_by_bracket(text: str, b: str) -> bool:
+	"""Is some nested group of kind `b` (one that lies inside another group of that kind) directly followed by a bracket of
+	that kind or by a quote? `_parse` continues at `end + 1` after a block (block.py:147) and so never looks at that character.
+	(clean fragments only: no bracket occurs inside a string)"""
+	depth = 0
+	for i, c in enumerate(text):
+		if c == b[0]:
+			depth += 1
+		elif c == b[1]:
+			depth -= 1
+			if depth >= 1 and i + 1 < len(text) and text[i + 1] in b + ''.join(QUOTES):
+				return True
+	return False
+
+
+def check_bracket(text: str, b: str, group: str) -> tuple[str, str] | None:
 	B = _bp()
+	try:
+		got: Any = guarded(B.parse_bracket, text, b)
+	except Exception as e:  # noqa: BLE001
+		got = exc_enum(e)
+	ok = isinstance(got, list) and len(got) > 0 and got[0] == group and all(p[:1] == b[0] and p[-1:] == b[1] and balanced(p) for p in got)
+	if ok:
+		return None
+	if nested_group_followed_by_bracket(text, b):
+		key = 'parse_bracket:character-after-nested-group-is-skipped'
+	elif isinstance(got, list) and got[:1] == [group] and any(p.count(b[0]) == p.count(b[1]) and not balanced(p) for p in got):
+		# `text.find(brackets[0], entry.begin)` (block.py:265) finds a bracket inside a group of another kind that belongs to the
+		# entry's name part (`g[(1)](x)`): the block text then starts inside that other group
+		key = 'parse_bracket:block-begin-found-inside-other-kind-group'
+	else:
+		key = 'parse_bracket:blocks-differ'
+	return key, f'parse_bracket({text!r}, {b!r}) = {got!r}; the group is {group!r}'
+
+
+def search_bracket(ctx: Ctx) -> SearchResult:
 	rng = ctx.sub_rng('law-bracket')
-	res = SearchResult('parse_bracket on name + group: every returned block is a balanced group of the kind and the first is the whole group (clean fragments)')
+	res = SearchResult('parse_bracket on name + group + tail: the first block is the whole group and every block is a balanced group of the kind (clean fragments)')
 	hist: dict[str, int] = {}
 	seen: set[str] = set()
-	for i in range(ctx.scale(1500, 20000)):
-		b = BRACKETS[i % 4]
+	for text, b, group in [('f(g(x))+1', '()', '(g(x))'), ('a(b(c(d)))', '()', '(b(c(d)))'), ('f(g[(1)](x), y)', '()', '(g[(1)](x), y)')]:
+		res.cases += 1
+		bad = check_bracket(text, b, group)
+		if bad:
+			res.findings.append(Finding(key=bad[0], what=bad[1], replay={'text': text, 'brackets': b, 'witness': True}))
+	for i in range(ctx.scale(25000, 200000)):
+		b = rng.choice(BRACKETS)
 		inner = render(gen_fragment(rng, 'clean', i))
 		name = ''.join(rng.choice(IDENT[:7]) for _ in range(rng.randint(0, 3)))
-		text = name + b[0] + inner + b[1]
+		tail = rng.choice(['', '', ';', ' + 1', '.x', ' '])
+		group = b[0] + inner + b[1]
+		text = name + group + tail
 		res.cases += 1
-		seen.add(text)
-		try:
-			got: Any = guarded(B.parse_bracket, text, b)
-		except Exception as e:  # noqa: BLE001
-			got = exc_enum(e)
-		ok = isinstance(got, list) and len(got) > 0 and got[0] == b[0] + inner + b[1] and all(p[:1] == b[0] and p[-1:] == b[1] and balanced(p) for p in got)
-		nested_adjacent = (b[1] + b[1]) in ''.join(c for c in text if c in b)
-		k = f'{b} ' + ('nested group directly before a closer' if nested_adjacent else 'other')
+		seen.add(b + text)
+		bad = check_bracket(text, b, group)
+		k = f'{b} ' + ('nested group directly before a bracket of the kind or a quote' if nested_group_followed_by_bracket(text, b) else 'other')
 		hist[k] = hist.get(k, 0) + 1
-		if not ok:
-			key = 'parse_bracket:block-after-nested-group-swallows-closer' if nested_adjacent else 'parse_bracket:blocks-differ'
-			res.findings.append(Finding(key=key, what=f'parse_bracket({text!r}, {b!r}) = {got!r}', replay={'text': text, 'brackets': b}))
-		elif len(res.samples) < 2 and len(got) > 1:
-			res.samples.append({'text': text, 'blocks': got})
+		if bad:
+			res.findings.append(Finding(key=bad[0], what=bad[1], replay={'text': text, 'brackets': b}))
+		elif len(res.samples) < 2 and inner.count(b[0]) > 0:
+			res.samples.append({'text': text, 'blocks': real_op(['bracket', text, b])})
+	res.distinct = len(seen)
+	res.histogram = hist
+	return res
+
+
+def matching(text: str) -> dict[int, int]:
+	"""opening position → position of the matching closing bracket / quote (strings opaque), by the independent scanner"""
+	out: dict[int, int] = {}
+	stack: list[int] = []
+	quote: int | None = None
+	for i, c in enumerate(text):
+		if quote is not None:
+			if c == text[quote]:
+				out[quote] = i
+				quote = None
+		elif c in QUOTES:
+			quote = i
+		elif c in OPEN:
+			stack.append(i)
+		elif c in CLOSE and stack:
+			out[stack.pop()] = i
+	return out
+
+
+def search_skip(ctx: Ctx) -> SearchResult:
+	B = _bp()
+	rng = ctx.sub_rng('law-skip')
+	res = SearchResult('_skip_other_block started on any opening bracket/quote of a clean fragment returns the position behind its partner (independent matcher)')
+	hist: dict[str, int] = {}
+	seen: set[str] = set()
+	toks = all_tokens()
+	for i in range(ctx.scale(15000, 120000)):
+		text = render(gen_fragment(rng, 'clean', i))
+		m = matching(text)
+		seen.add(text)
+		for o, c in m.items():
+			res.cases += 1
+			try:
+				got: Any = guarded(B._skip_other_block, text, toks, o)
+			except Exception as e:  # noqa: BLE001
+				got = exc_enum(e)
+			k = 'quote' if text[o] in QUOTES else text[o] + text[c]
+			hist[k] = hist.get(k, 0) + 1
+			if got != c + 1:
+				res.findings.append(Finding(key='skip:partner', what=f'_skip_other_block({text!r}, all, {o}) = {got!r}, the partner of {text[o]!r} is at {c}', replay={'text': text, 'begin': o}))
+		if i < 2:
+			res.samples.append({'text': text, 'pairs': sorted(m.items())[:6]})
 	res.distinct = len(seen)
 	res.histogram = hist
 	return res
@@ -639,7 +751,24 @@ def search_bracket(ctx: Ctx) -> SearchResult:
 # ---------------------------------------------------------------------------------------------
 
 
-STATEMENTS: dict[str, str] = {}
+STATEMENTS: dict[str, str] = {
+	'skip_group / skip_string': '_skip_other_block started on the opening bracket (quote) of a group with a clean fragment inside (of a clean string) returns the position right behind the matching closer, for every nesting depth and every surrounding text',
+	'sep_spec': 'break_separator(render f, d) = the top-level pieces of f (cut at every top-level d except one in the very last position, nowhere else; each piece stripped of blanks; empty first piece kept; empty text gives []), for every clean fragment f and every delimiter character d',
+	'sep_only_top': 'clean f = f1 d f2 d ... fn at top level with clean fi and the result is [strip(render fi)]: every cut is a top-level delimiter',
+	'sep_rejoin': 'there are segments with d.join(segments) = text and result = [s.strip(" ") for s in segments]',
+	'sep_balanced': 'every returned piece is the text of a clean (balanced) fragment',
+	'sep_only_top_dirty': 'the same three laws (cuts only at top-level delimiters, rejoin, balanced pieces) for fragments whose strings are ARBITRARY simple quoted strings (brackets and the other quote inside): invariant on the closer stack (Shape), all nesting depths',
+	'sep_spec_dirty_counterexample': 'the exact split is false once a string contains a bracket: break_separator(\'"(", x\', ",") is one piece (the scanner over-skips, it never cuts inside)',
+	'sep_total': 'the loop of break_separator finishes for every text and delimiter (fuel len+1 is never exhausted)',
+	'last_block': 'break_last_block(render pre + open + render inner + close, kind) = (render pre, render inner) for all fragments pre, inner whose strings do not contain the brackets of that kind (other brackets and quotes allowed)',
+	'last_block_error': 'no opening or no closing bracket of the kind in the text: IndexError (ranges[-1])',
+	'decorator': 'DecoratorHelper._parse(path + "(" + render args + ")") = (path, dict built from exactly the top-level comma pieces of args, render args) for every path without "(" and every clean args fragment',
+	'decorator_reassemble': 'each stored (key, value) puts its piece back together: label + "=" + value when the piece contains "=", else the piece under str(position)',
+	'decorator_positional_counterexample': 'a positional argument is NOT always stored under its position: f(g(k=1)) gives {"g(k": "1)"} (arg.count("=") also counts nested "=")',
+	'param / param_plain': 'Param.parse("t1 ... tn name [= default]") = (t1 ... tn joined by one blank, name, default.strip()) for non-empty clean tokens without top-level blank or "=" and a clean default without top-level "="',
+	'param_counterexample': 'without the restriction on the default the statement is false: "bool b = x == y" gives ("bool", "b", "")',
+	'bracket_counterexample': 'parse_bracket does NOT always return the whole group first / balanced blocks: "f(g(x))+1" gives ["(g(x))+1", "(x)"] (_parse continues at end + 1 after a nested block)',
+}
 
 
 def translate(ctx: Ctx) -> tuple[bool, str]:
@@ -651,13 +780,18 @@ def translate(ctx: Ctx) -> tuple[bool, str]:
 		return False, f'gen_block_pairs: {type(e).__name__}: {e}'
 
 
-def cap_findings(searches: list[SearchResult], per_key: int = 1) -> None:
-	"""keep one witness (the shortest) per finding key so that the verdict names input classes, not thousands of inputs"""
+def cap_findings(searches: list[SearchResult]) -> None:
+	"""keep one witness per finding key (a fixed defect witness if there is one, else the shortest input) so that the verdict names input classes, not thousands of inputs"""
 	for s in searches:
 		best: dict[str, Finding] = {}
+		fixed: set[str] = set()
 		for f in s.findings:
 			cur = best.get(f.key)
-			if cur is None or len(json.dumps(f.replay)) < len(json.dumps(cur.replay)):
+			if f.replay.get('witness'):
+				if f.key not in fixed:
+					best[f.key] = f
+					fixed.add(f.key)
+			elif f.key not in fixed and (cur is None or len(json.dumps(f.replay)) < len(json.dumps(cur.replay))):
 				best[f.key] = f
 		s.findings = [best[k] for k in sorted(best)]
 
@@ -669,36 +803,47 @@ def run(ctx: Ctx) -> int:
 	with ctx.timed('correspondence'):
 		streams = [
 			corpus_cases(ctx),
-			stream_fragments(ctx, 'block-clean', 'clean', ctx.scale(500, 6000)),
-			stream_fragments(ctx, 'block-dirty', 'dirty', ctx.scale(300, 4000)),
-			stream_fragments(ctx, 'block-malformed', 'malformed', ctx.scale(300, 4000)),
+			stream_fragments(ctx, 'block-clean', 'clean', ctx.scale(6000, 40000)),
+			stream_fragments(ctx, 'block-dirty', 'dirty', ctx.scale(4000, 30000)),
+			stream_fragments(ctx, 'block-malformed', 'malformed', ctx.scale(4000, 30000)),
 		]
 	with ctx.timed('search'):
-		searches = [search_sep(ctx), search_last(ctx), search_decorator(ctx), search_param(ctx), search_bracket(ctx)]
+		searches = [search_skip(ctx), search_sep(ctx), search_last(ctx), search_decorator(ctx), search_param(ctx), search_bracket(ctx)]
 	cap_findings(searches)
 	return common.finish(ctx, proof, streams, searches,
 		translate_ok=translate_ok, translate_msg=translate_msg,
 		statements=STATEMENTS,
-		partial={},
-		assumptions=[],
-		trusted=[])
+		partial={
+			'proved (all fragments, unbounded nesting, induction on Frag)': 'splitting cuts only at top-level delimiters, rejoin up to blanks, balanced pieces — for clean fragments with the exact split (sep_spec) and for fragments with arbitrary simple strings (sep_only_top_dirty); last bracket group of prefix+group (last_block, strings may contain the other bracket kinds and quotes); error branch; skip; decorator path/join_args/pieces; parameter type/name/default under the stated restriction',
+			'proved false on the current code (counterexample theorems, witnesses replayed on the real code by the search)': 'parameter default with a top-level "="; positional decorator argument containing "="; parse_bracket after a nested group; exact split with a bracket inside a string',
+			'correspondence only': '_analyze_entry, _parse, _parse_block, parse, parse_pair (modelled line by line and compared on every stream; no law of the property statement names them and parse_pair has no caller); multi-character and empty delimiters, brackets arguments of other lengths, unbalanced text',
+			'search only': 'decorator arguments with brackets/quotes inside strings (the scanner merges arguments: reported as finding)',
+		},
+		assumptions=[
+			'fragments are rendered with the ASCII bracket/quote characters of BlockParser._all_pair (generated table; the proofs are redone when it changes)',
+			'a quoted string is "simple": it does not contain its own quote character (no escapes)',
+			'the `brackets` argument has exactly two characters in the theorems (other lengths: correspondence only; a third character makes _parse loop on the real code and is never generated)',
+		],
+		trusted=['Python str methods find/strip/split/join/count as modelled in Tranp/Str.lean (exercised through every op of the streams)'])
 
 
 def replay(ctx: Ctx, path: str) -> int:
+	"""Show the recorded input on the real helpers (and what the independent oracle expects), then re-run the check with
+	the recorded seed and tier."""
 	with open(path, encoding='utf-8') as f:
 		rec = json.load(f)
 	print(json.dumps(rec, indent=1, ensure_ascii=False)[:4000])
 	inp = rec.get('input') or {}
 	if rec.get('kind') == 'failing-input':
-		B = _bp()
 		if 'delimiter' in inp:
-			print('real break_separator:', real_op(['sep', inp['text'], inp['delimiter']]), '| top-level split:', expected_split(inp['text'], inp['delimiter']))
+			print('replay: real break_separator →', real_op(['sep', inp['text'], inp['delimiter']]), '| top-level split:', expected_split(inp['text'], inp['delimiter']))
 		elif 'decorator' in inp:
-			print('real DecoratorHelper._parse:', real_op(['deco', inp['decorator']]))
+			print('replay: real DecoratorHelper._parse →', real_op(['deco', inp['decorator']]))
 		elif 'parameter' in inp:
-			print('real Param.parse:', real_op(['param', inp['parameter']]))
+			print('replay: real Param.parse →', real_op(['param', inp['parameter']]))
+		elif 'begin' in inp:
+			print('replay: real _skip_other_block →', real_op(['skip', all_tokens(), inp['text'], str(inp['begin'])]), '| partner:', matching(inp['text']).get(inp['begin']))
 		elif 'brackets' in inp:
-			print('real break_last_block:', real_op(['last', inp['text'], inp['brackets']]), '| parse_bracket:', real_op(['bracket', inp['text'], inp['brackets']]))
-		del B
+			print('replay: real break_last_block →', real_op(['last', inp['text'], inp['brackets']]), '| real parse_bracket →', real_op(['bracket', inp['text'], inp['brackets']]))
 	ctx2 = Ctx(PROP, rec.get('tier', 'quick'), int(rec.get('seed', 0)))
 	return run(ctx2)
